@@ -283,7 +283,7 @@ def model_check(progs, runs):
             continue
         steps = canonical_steps(parse(r))
         start = len(lines)
-        pg = re.sub(r"H\d+", "H", progs_of(r))
+        pg = re.sub(r"H\d+", "H", progs_of(r)).replace("V", "W")      # V = a late writer: a write request for the model
         # `@<bits>,…`: thread 0 first holds the write lock (with the id counters moved close to 2^bits), then runs its probe
         lines.append("rwp init HWR," + pg.split(",", 1)[1] if pg.startswith("@") else "rwp init WR," + pg)
         lines.extend(steps)
@@ -367,6 +367,15 @@ def run_tie(prop, spec, tier, seed):
             b = rng.below(a + 1)
             ks[a], ks[b] = ks[b], ks[a]
         lines.append("run H,%s seed %d pts" % (",".join(ks), rng.next() % (1 << 40)))
+    # refills: k writers queue behind a holder that leaves as soon as they are parked; late writers (V) reach the queue while the
+    # first of them has already been admitted from its front — a queue that has been consumed from the front AND is full again
+    # (a ring whose head is not at slot 0 when it has to grow)
+    nrf = 24 if tier == "quick" else 400
+    for i in range(nrf):
+        k = rng.pick([2, 3, 4, 4, 4, 5, 7, 8, 8, 9])
+        nv = rng.pick([2, 3, 4, 5])
+        ks = ["H%d" % k] + ["W"] * k + ["V"] * nv + (["R"] if rng.chance(1, 3) else [])
+        lines.append("run %s seed %d pts" % (",".join(ks), rng.next() % (1 << 40) + ((1 << 62) if i % 2 else 0)))
     # reader crowds: 17-40 readers queue up behind one writer and form ONE read entry that has to be granted together (a wake-up
     # scheme that notifies per ticket, per slot or per batch of a fixed size shows here), sometimes with a writer behind them
     nrc = 16 if tier == "quick" else 300
